@@ -66,13 +66,23 @@ class Lib:
                 vis = rng.choice(['__published', '__published', 'public', 'protected', 'private'])
                 members = []
                 for m in range(rng.randrange(0, 4)):
-                    kind = rng.choice(['method', 'method', 'method', 'static', 'field', 'ctor', 'enum', 'nested'])
+                    kind = rng.choice(['method', 'method', 'method', 'static', 'field', 'ctor', 'enum', 'nested', 'operator'])
                     mid += 1
                     if kind == 'nested':
                         if vis not in ('__published', 'public'):
                             continue
                         members.append({'kind': 'nested', 'name': 'In%d_%d' % (k, mid), 'static': 'sfn%d_%d' % (k, mid), 'method': 'nm%d_%d' % (k, mid),
                                         'ret': rng.choice(['int', 'double', 'bool'])})
+                        continue
+                    if kind == 'operator':
+                        # assignment-style operators (some declared void), comparison and index operators
+                        op = rng.choice(['void operator -=(int v)', '{C} &operator +=(int v)', '{C} &operator =(const {C} &o)', 'void operator *=(double v)', 'bool operator ==(const {C} &o) const',
+                                         'bool operator <=(const {C} &o) const', 'int operator [](int i) const', '{C} &operator <<=(int n)'])
+                        key = op.split('operator')[1].split('(')[0].strip()
+                        if key in cls.setdefault('_ops', set()):
+                            continue
+                        cls['_ops'].add(key)
+                        members.append({'kind': 'operator', 'decl': op.replace('{C}', name)})
                         continue
                     if kind in ('method', 'static'):
                         members.append({'kind': kind, 'name': 'm%d_%d_%s' % (k, mid, rng.choice(['get', 'set_value', 'compute', 'doIt'])), 'ret': self.rtype(known),
@@ -83,6 +93,9 @@ class Lib:
                         decl = {'plain': '%s {n}' % rng.choice(INT_TYPES[:4] + ['double', 'bool']), 'array': 'int {n}[%d]' % rng.choice([1, 3, 8]),
                                 'fnptr': 'void (*{n})(int)', 'fnptr2': 'int (*{n})(double, bool)', 'cstr': 'const char *{n}',
                                 'objptr': '::%s *{n}' % rng.choice(known), 'ptrptr': 'int **{n}'}[shape]
+                        if shape == 'plain' and rng.random() < 0.25:
+                            # a method named like the setter of the data member that follows it (and no getter of that name)
+                            members.append({'kind': 'operator', 'decl': 'void set_f%d(int v)' % mid})
                         members.append({'kind': 'field', 'name': 'f%d' % mid, 'decl': decl.replace('{n}', 'f%d' % mid), 'shape': shape})
                     elif kind == 'ctor':
                         ps = self.params(known, 2)
@@ -151,7 +164,7 @@ class Lib:
                             out.append('  // doc for %s::%s' % (c['name'], m['name']))
                         out.append('  %s%s%s %s%s%s;' % ('static ' if m['kind'] == 'static' else '', 'virtual ' if m['virtual'] else '', m['ret'], m['name'],
                                                        self.sig(m), (' const' if m['const'] else '') + (' = 0' if m.get('pure') else '')))
-                    elif m['kind'] == 'field':
+                    elif m['kind'] in ('field', 'operator'):
                         out.append('  %s;' % m['decl'])
                     elif m['kind'] == 'ctor':
                         out.append('  %s%s;' % (c['name'], self.sig(m)))
